@@ -17,7 +17,8 @@
 EXTENDS Naturals, Sequences, FiniteSets, TLC, Json
 
 CONSTANTS Deep,     \* TRUE: more histories
-          Twice     \* TRUE: two update-engine calls in a row per history (fewer words, no typing before)
+          Twice,    \* TRUE: two update-engine calls in a row per history (fewer words, no typing before)
+          GoneKeepsLoaded   \* TRUE: transcript of the pinned tree (a deleted file leaves the loaded entries in place)
 
 AllWords == {"as", "onno", "academy"}
 Words == IF Twice THEN {"as", "academy"} ELSE AllWords
@@ -37,18 +38,22 @@ MaxEdits == IF Deep THEN 2 ELSE 1
 Phon(c) == c.layout = "phonetic"
 
 \* phase: "pre" (typing before), "edit" (file edits), "post" (after the update)
-VARIABLES cfg, file, stamp, loaded, loadedAt, memo, phase, hist
-vars == <<cfg, file, stamp, loaded, loadedAt, memo, phase, hist>>
+VARIABLES cfg, file, stamp, loaded, loadedAt, memo, phase, hist,
+          fstate    \* "ok" | "corrupt" (not parsable any more) | "gone" (deleted); `file` is the EFFECTIVE content (no entries unless ok)
+vars == <<cfg, file, stamp, loaded, loadedAt, memo, phase, hist, fstate>>
 
 NoEntries == [w \in AllWords |-> 0]
 
 Init == /\ cfg \in Configs
         /\ file \in {NoEntries, [NoEntries EXCEPT !["as"] = 1]}      \* the file the context starts over
         /\ stamp = 1
-        /\ loaded = (IF Phon(cfg) THEN file ELSE NoEntries) /\ loadedAt = (IF Phon(cfg) THEN 1 ELSE 0)
+        /\ loaded = (IF Phon(cfg) THEN file ELSE NoEntries) /\ loadedAt = (IF Phon(cfg) /\ file # NoEntries THEN 1 ELSE 0)
         /\ memo = [w \in {} |-> 0]
-        /\ phase = "pre"
+        /\ phase = "pre" /\ fstate = "ok"
         /\ hist = <<[op |-> "start", cfg |-> cfg, file |-> file, w |-> ""]>>
+
+\* is there a file at all?  (a context that starts over no entries starts without the file)
+Exists == fstate # "gone" /\ ~(stamp = 1 /\ file = NoEntries)
 
 \* typing a word and finishing it: the memo remembers the answer computed now
 Updates == {j \in 1..Len(hist) : hist[j].op = "update"}
@@ -62,16 +67,26 @@ Type(w) ==
     /\ (phase = "post" => TypesSinceUpd < 2)
     /\ memo' = IF Phon(cfg) /\ cfg.psug /\ w \notin DOMAIN memo THEN [x \in DOMAIN memo \cup {w} |-> IF x = w THEN loaded[w] ELSE memo[x]] ELSE memo
     /\ hist' = Append(hist, [op |-> "type", cfg |-> cfg, file |-> file, w |-> w])
-    /\ UNCHANGED <<cfg, file, stamp, loaded, loadedAt, phase>>
+    /\ UNCHANGED <<cfg, file, stamp, loaded, loadedAt, phase, fstate>>
 
 \* the user edits the auto-correct file: an entry is added, changed or REMOVED (content change, newer modification time)
 Edit(w) ==
     /\ phase \in {"pre", "edit"}
-    /\ Cardinality({i \in 1..Len(hist) : hist[i].op = "edit"}) < MaxEdits
+    /\ Cardinality({i \in 1..Len(hist) : hist[i].op \in {"edit", "corrupt", "gone"}}) < MaxEdits
     /\ \E v \in 0..2 :
           /\ v # file[w]
           /\ file' = [file EXCEPT ![w] = v] /\ stamp' = stamp + 1
           /\ hist' = Append(hist, [op |-> "edit", cfg |-> cfg, file |-> file', w |-> w])
+    /\ phase' = "edit" /\ fstate' = "ok"
+    /\ UNCHANGED <<cfg, loaded, loadedAt, memo>>
+
+\* ... or the file is damaged (no longer parsable, newer modification time) or deleted: it holds no entries any more
+Break(k) ==
+    /\ phase \in {"pre", "edit"}
+    /\ Cardinality({i \in 1..Len(hist) : hist[i].op \in {"edit", "corrupt", "gone"}}) < MaxEdits
+    /\ fstate # k /\ ~(k = "gone" /\ file = NoEntries /\ stamp = 1)        \* (deleting a file that never existed is no event)
+    /\ file' = NoEntries /\ stamp' = stamp + 1 /\ fstate' = k
+    /\ hist' = Append(hist, [op |-> k, cfg |-> cfg, file |-> file', w |-> ""])
     /\ phase' = "edit"
     /\ UNCHANGED <<cfg, loaded, loadedAt, memo>>
 
@@ -85,15 +100,20 @@ Update(c) ==
     /\ cfg' = c
     /\ IF c.layout # cfg.layout
        THEN /\ memo' = [w \in {} |-> 0]
-            /\ loaded' = (IF Phon(c) THEN file ELSE NoEntries) /\ loadedAt' = (IF Phon(c) THEN stamp ELSE 0)
+            /\ loaded' = (IF Phon(c) THEN file ELSE NoEntries) /\ loadedAt' = (IF Phon(c) /\ Exists THEN stamp ELSE 0)
+       ELSE IF Phon(c) /\ fstate = "gone"
+            \* the file cannot be opened: the pinned tree kept the entries it had loaded (GoneKeepsLoaded); after fix F22 they
+            \* are forgotten like in a context created now
+            THEN IF GoneKeepsLoaded \/ loadedAt = 0 THEN UNCHANGED <<loaded, loadedAt, memo>>
+                 ELSE loaded' = NoEntries /\ loadedAt' = 0 /\ memo' = [w \in {} |-> 0]
        ELSE IF Phon(c) /\ stamp > loadedAt
             THEN loaded' = file /\ loadedAt' = stamp /\ memo' = [w \in {} |-> 0]   \* the memo is dropped with the reload
             ELSE UNCHANGED <<loaded, loadedAt, memo>>
     /\ phase' = "post"
     /\ hist' = Append(hist, [op |-> "update", cfg |-> c, file |-> file, w |-> ""])
-    /\ UNCHANGED <<file, stamp>>
+    /\ UNCHANGED <<file, stamp, fstate>>
 
-Next == (\E w \in Words : Type(w) \/ Edit(w)) \/ (\E c \in Configs : Update(c))
+Next == (\E w \in Words : Type(w) \/ Edit(w)) \/ (\E c \in Configs : Update(c)) \/ (\E k \in {"corrupt", "gone"} : Break(k))
 Spec == Init /\ [][Next]_vars
 
 \* the answer the context gives for w now vs. the answer of a fresh context over the current file
@@ -106,6 +126,8 @@ StepsA == [i \in 1..Len(hist) |->
               CASE hist[i].op = "start"  -> [op |-> "new", cfg |-> hist[i].cfg, acfile |-> hist[i].file, stamp |-> 1, w |-> ""]
                 [] hist[i].op = "type"   -> [op |-> "typefinish", cfg |-> "", acfile |-> "", stamp |-> 0, w |-> hist[i].w]
                 [] hist[i].op = "edit"   -> [op |-> "acwrite", cfg |-> "", acfile |-> hist[i].file, stamp |-> i, w |-> ""]
+                [] hist[i].op = "corrupt" -> [op |-> "accorrupt", cfg |-> "", acfile |-> "", stamp |-> i, w |-> ""]
+                [] hist[i].op = "gone"   -> [op |-> "acremove", cfg |-> "", acfile |-> "", stamp |-> i, w |-> ""]
                 [] OTHER                 -> [op |-> "update", cfg |-> hist[i].cfg, acfile |-> "", stamp |-> 0, w |-> ""]]
 Emit == (phase = "post" /\ TypesSinceUpd = 2 /\ Cardinality(Updates) = MaxUpdates) =>
            PrintT(<<"REPLAY", ToJson([mc |-> "MC_Update", steps |-> StepsA])>>)
